@@ -85,6 +85,11 @@ func constructed(k int) *ir.Module {
 	s := next.NewSelect(c, a, l)
 	al := next.NewAlloca(types.I32)
 	next.NewStore(s, al)
+	// lazily settled type state: a NAMED alloca whose address space is set after construction, used as an operand
+	slot := next.NewAlloca(types.I64)
+	slot.AddrSpace = types.AddrSpace(3 + k%2)
+	slot.SetName("slot")
+	next.NewStore(constant.NewInt(types.I64, 1), slot)
 	next.NewRet(s)
 	for i := 0; i < k%4; i++ {
 		m.NewFunc("", types.Void).NewBlock("").NewRet(nil)
